@@ -65,8 +65,9 @@ def handle (fn : String) (a : Json) : Option (Except String Json) :=
       let declared ← a.getObjValAs? (List String) "declared"
       let input ← dictOfJson (← a.getObjVal? "input")
       let base ← dictOfJson (← a.getObjVal? "base")
-      let (i, p) := splitInput declared input base
-      pure (Json.mkObj [("input", jsonOfVal (.obj i)), ("params", jsonOfVal (.obj p))])
+      match splitInput declared input base with
+      | .error e => pure (Json.mkObj [("err", Json.str (errName e))])
+      | .ok (i, p) => pure (Json.mkObj [("input", jsonOfVal (.obj i)), ("params", jsonOfVal (.obj p))])
   | "subwf.schedule" => some do
       let pp ← dictOfJson (← a.getObjVal? "parentParams")
       let pr ← optStr (← a.getObjVal? "parentRoot")
@@ -93,11 +94,13 @@ def handle (fn : String) (a : Json) : Option (Except String Json) :=
       match baseParams pp (rootOf pr pid) tid idx with
       | .error e => pure (Json.mkObj [("err", Json.str (errName e))])
       | .ok base =>
-        let (i, p) := splitInput declared input base
-        if rpc && p.any (fun kv => rpcKeywords.contains kv.1) then
-          pure (Json.mkObj [("err", Json.str (errName .typeError))])
-        else
-          pure (Json.mkObj [("input", jsonOfVal (.obj i)), ("params", jsonOfVal (.obj p))])
+        match splitInput declared input base with
+        | .error e => pure (Json.mkObj [("err", Json.str (errName e))])
+        | .ok (i, p) =>
+          if rpc && p.any (fun kv => rpcKeywords.contains kv.1) then
+            pure (Json.mkObj [("err", Json.str (errName .typeError))])
+          else
+            pure (Json.mkObj [("input", jsonOfVal (.obj i)), ("params", jsonOfVal (.obj p))])
   | "subwf.parentTask" => some do
       let wi ← a.getObjValAs? Bool "withItems"
       let chJ ← a.getObjValAs? (Array Json) "children"
